@@ -59,19 +59,14 @@ theorem verify_never_panics (st : NodeSt) (inst : Instance) (m : NMsg) : verifyM
 
 /-- **unsigned_noop.** Apart from the opening proposal, a message whose signature does not verify
 under the key registered for its named sender (altered payload, altered / missing signature,
-unknown sender, any other key) is rejected, and the node state is exactly what loading the round
-produced: the pre-state, plus — only if the round id was unknown — a fresh empty round entry.
-Every existing round, the operation pool, the tombstones and the signature store are unchanged;
-nothing is posted. -/
+unknown sender, any other key) is rejected, nothing is posted, no operation is created, and the node
+state is literally the value it was: every round (no entry is created for an unknown round id either —
+fix "leave no trace of a rejected message"), the operation pool, the tombstones and the signature store. -/
 theorem unsigned_noop (st : NodeSt) (m : NMsg) (now : Time) (payloadOf : Tasks.Msg → Bytes)
     (hev : m.event ≠ "event_sig_proposal_init") (hskip : st.skipVerify = false)
     (hbad : ∀ st1 inst, getInstance st m.round = some (st1, inst) → ¬ signedByRegisteredSender inst m) :
     let r := processMessage st m now payloadOf
-    r.out = .reject ∧ r.op = none ∧ r.sent = [] ∧
-    r.st.ops = st.ops ∧ r.st.deleted = st.deleted ∧ r.st.sigs = st.sigs ∧
-    (r.st.rounds = st.rounds ∨
-      (lookupS st.rounds m.round = none ∧
-       r.st.rounds = assocSet st.rounds m.round ((Instance.create m.round).dumpState, (Instance.create m.round).payload))) := by
+    r.out = .reject ∧ r.op = none ∧ r.sent = [] ∧ r.st = st := by
   unfold processMessage
   cases hg : getInstance st m.round with
   | none => simp [rejectWith]
@@ -79,7 +74,7 @@ theorem unsigned_noop (st : NodeSt) (m : NMsg) (now : Time) (payloadOf : Tasks.M
     obtain ⟨st1, inst⟩ := pr
     have hev' : (m.event == "event_sig_proposal_init") = false := by simp [hev]
     simp only [hev', Bool.false_eq_true, ↓reduceIte]
-    have hsk1 : st1.skipVerify = false := by
+    have hst1 : st1 = st := by
       unfold getInstance at hg
       cases hl : lookupS st.rounds m.round with
       | some v =>
@@ -87,12 +82,13 @@ theorem unsigned_noop (st : NodeSt) (m : NMsg) (now : Time) (payloadOf : Tasks.M
         simp only [hl] at hg
         cases hr : Instance.restore ds p with
         | none => simp [hr] at hg
-        | some i => simp [hr] at hg; rw [← hg.1]; exact hskip
+        | some i => simp [hr] at hg; exact hg.1.symm
       | none =>
         simp only [hl] at hg
         split at hg
         · cases hg
-        · simp at hg; rw [← hg.1]; simp [saveFSM, hskip]
+        · simp at hg; exact hg.1.symm
+    have hsk1 : st1.skipVerify = false := by rw [hst1]; exact hskip
     have hv : verifyMessage st1 inst m = .reject := by
       have h1 := verify_ok_iff st1 inst m
       have h2 := verify_never_panics st1 inst m
@@ -101,25 +97,7 @@ theorem unsigned_noop (st : NodeSt) (m : NMsg) (now : Time) (payloadOf : Tasks.M
       | reject => rfl
       | panic => exact absurd hvv h2
     simp only [hv, rejectWith, true_and]
-    -- what getInstance did to the state
-    unfold getInstance at hg
-    cases hl : lookupS st.rounds m.round with
-    | some v =>
-      obtain ⟨ds, p⟩ := v
-      simp only [hl] at hg
-      cases hr : Instance.restore ds p with
-      | none => simp [hr] at hg
-      | some i =>
-        simp [hr] at hg
-        rw [← hg.1]
-        exact ⟨rfl, rfl, rfl, Or.inl rfl⟩
-    | none =>
-      simp only [hl] at hg
-      split at hg
-      · cases hg
-      · simp at hg
-        rw [← hg.1]
-        exact ⟨rfl, rfl, rfl, Or.inr ⟨rfl, rfl⟩⟩
+    exact hst1
 
 /-- non-vacuity: a registered sender, a signature that verifies under somebody else's key only -/
 example : ¬ signedByRegisteredSender
